@@ -551,6 +551,248 @@ async fn chain_cases(out: &mut Out, rng: &mut Rng, thorough: bool) {
     }
 }
 
+pub const PKI: &str = "/verif/harness/pki";
+
+pub fn pem_certs(name: &str) -> Vec<tokio_rustls::rustls::Certificate> {
+    let mut r = std::io::BufReader::new(std::fs::File::open(format!("{}/{}.crt", PKI, name)).unwrap());
+    rustls_pemfile::certs(&mut r).unwrap().into_iter().map(tokio_rustls::rustls::Certificate).collect()
+}
+pub fn pem_key(name: &str) -> tokio_rustls::rustls::PrivateKey {
+    let mut r = std::io::BufReader::new(std::fs::File::open(format!("{}/{}.key", PKI, name)).unwrap());
+    tokio_rustls::rustls::PrivateKey(rustls_pemfile::pkcs8_private_keys(&mut r).unwrap().remove(0))
+}
+pub fn tls_client_cfg(alpn: Option<&[u8]>) -> tokio_rustls::rustls::ClientConfig {
+    let mut roots = tokio_rustls::rustls::RootCertStore::empty();
+    for c in pem_certs("ca") {
+        roots.add(&c).unwrap();
+    }
+    let mut c = tokio_rustls::rustls::ClientConfig::builder().with_safe_defaults().with_root_certificates(roots).with_no_client_auth();
+    if let Some(a) = alpn {
+        c.alpn_protocols = vec![a.to_vec()];
+    }
+    c
+}
+
+/// pairings with TLS and QUIC on either hop: every client speaks CONNECT (plain / over TLS / over a QUIC stream), the
+/// upstream hop is direct, an http upstream over TLS, or a QUIC upstream; the far end echoes the tunnel until EOF
+async fn secure_pairings(out: &mut Out, rng: &mut Rng, thorough: bool) {
+    use tokio_rustls::rustls;
+    // echo origin (plain TCP)
+    let ol = TcpListener::bind("127.0.0.1:0").await.unwrap();
+    let origin = ol.local_addr().unwrap().port();
+    tokio::spawn(async move {
+        loop {
+            if let Ok((mut s, _)) = ol.accept().await {
+                tokio::spawn(async move {
+                    let mut got = vec![];
+                    let _ = s.read_to_end(&mut got).await;
+                    let _ = s.write_all(&got).await;
+                    let _ = s.shutdown().await;
+                });
+            }
+        }
+    });
+    // TLS http upstream proxy: CONNECT -> 200, then echo until EOF
+    let tls_up = {
+        let cfg = rustls::ServerConfig::builder().with_safe_defaults().with_no_client_auth().with_single_cert(pem_certs("server"), pem_key("server")).unwrap();
+        let acc = tokio_rustls::TlsAcceptor::from(Arc::new(cfg));
+        let l = TcpListener::bind("127.0.0.1:0").await.unwrap();
+        let port = l.local_addr().unwrap().port();
+        tokio::spawn(async move {
+            while let Ok((s, _)) = l.accept().await {
+                let acc = acc.clone();
+                tokio::spawn(async move {
+                    if let Ok(mut t) = acc.accept(s).await {
+                        let mut head = vec![];
+                        let mut b = [0u8; 1];
+                        while !head.ends_with(b"\r\n\r\n") {
+                            match t.read(&mut b).await {
+                                Ok(1) => head.push(b[0]),
+                                _ => return,
+                            }
+                        }
+                        let _ = t.write_all(b"HTTP/1.1 200 OK\r\n\r\n").await;
+                        let _ = t.flush().await;
+                        let mut got = vec![];
+                        let _ = t.read_to_end(&mut got).await;
+                        let _ = t.write_all(&got).await;
+                        let _ = t.shutdown().await;
+                    }
+                });
+            }
+        });
+        port
+    };
+    // second proxy instance B: quic listener -> direct (the QUIC upstream of instance A)
+    let mk_world = |splice: bool| {
+        let mut w = world(&[], 50);
+        Arc::get_mut(&mut w.state).unwrap().io_params = crate::config::IoParams { buffer_size: 65536, use_splice: splice };
+        w
+    };
+    let conn = |yaml: String| async move {
+        let mut c = crate::connectors::from_value(&serde_yaml::from_str(&yaml).unwrap()).unwrap();
+        c.init().await.unwrap();
+        let c: Arc<dyn crate::connectors::Connector> = c.into();
+        c
+    };
+    let mut wb = mk_world(false);
+    Arc::get_mut(&mut wb.state).unwrap().connectors.insert("direct".into(), conn("name: direct\ntype: direct".into()).await);
+    set_rules(&wb, &[("direct".into(), None)]).await.unwrap();
+    let tls_yaml = format!("tls:\n  cert: {}/server.crt\n  key: {}/server.key", PKI, PKI);
+    let b_quic = start_listener_udp(&wb, &format!("name: bq\ntype: quic\n{}", tls_yaml)).await;
+    // instance A
+    let mut wa = mk_world(true);
+    {
+        let st = Arc::get_mut(&mut wa.state).unwrap();
+        st.connectors.insert("direct".into(), conn("name: direct\ntype: direct".into()).await);
+        st.connectors.insert("tlsup".into(), conn(format!("name: tlsup\ntype: http\nserver: localhost\nport: {}\ntls:\n  ca: {}/ca.crt", tls_up, PKI)).await);
+        st.connectors.insert("quicup".into(), conn(format!("name: quicup\ntype: quic\nserver: localhost\nport: {}\nbind: \"127.0.0.1:0\"\ntls:\n  ca: {}/ca.crt", b_quic, PKI)).await);
+    }
+    set_rules(&wa, &[("tlsup".into(), Some("request.target.port == 1".into())), ("quicup".into(), Some("request.target.port == 2".into())), ("direct".into(), None)]).await.unwrap();
+    let a_http = start_listener(&wa, "name: http\ntype: http").await;
+    let a_https = start_listener(&wa, &format!("name: https\ntype: http\n{}", tls_yaml)).await;
+    let a_sockss = start_listener(&wa, &format!("name: sockss\ntype: socks\n{}", tls_yaml)).await;
+    let a_quic = start_listener_udp(&wa, &format!("name: aq\ntype: quic\n{}", tls_yaml)).await;
+    tokio::time::sleep(std::time::Duration::from_millis(100)).await;
+    let sizes: &[usize] = if thorough { &[0, 1, 5, 1000, 70000, 400000] } else { &[0, 5, 1000, 200000] };
+    for listener in ["http", "https", "socks+tls", "quic"] {
+        for upstream in ["direct", "http+tls", "quic"] {
+            for &n in sizes {
+                let payload = rng.bytes(n);
+                let early = if rng.chance(1, 2) { n.min(5) } else { 0 };
+                // target: the port selects the upstream hop by rule; for `direct` it is the real origin
+                let target = match upstream {
+                    "direct" => format!("127.0.0.1:{}", origin),
+                    "http+tls" => "origin.example:1".to_string(),
+                    _ => format!("127.0.0.1:{}", origin), // via B (quic) -> direct: rule on port 2 cannot address the origin
+                };
+                // for the quic upstream the rule must fire although the target is the origin: use a dedicated listener name instead
+                if upstream == "quic" {
+                    set_rules(&wa, &[("quicup".into(), None)]).await.unwrap();
+                } else {
+                    set_rules(&wa, &[("tlsup".into(), Some("request.target.port == 1".into())), ("direct".into(), None)]).await.unwrap();
+                }
+                let head: Vec<u8> = if listener == "socks+tls" {
+                    // SOCKS5 with a domain / ip target
+                    let (host, port) = target.rsplit_once(':').unwrap();
+                    let mut r = vec![5u8, 1, 0, 5, 1, 0, 3, host.len() as u8];
+                    r.extend(host.as_bytes());
+                    r.extend(port.parse::<u16>().unwrap().to_be_bytes());
+                    r
+                } else {
+                    format!("CONNECT {} HTTP/1.1\r\nHost: x\r\n\r\n", target).into_bytes()
+                };
+                let reply_len = if listener == "socks+tls" { 2 + 4 } else { 39 };
+                let mut first = head.clone();
+                first.extend_from_slice(&payload[..early]);
+                let result: Option<(Vec<u8>, Vec<u8>, bool)> = async {
+                    match listener {
+                        "quic" => {
+                            let mut ep = quinn::Endpoint::client("127.0.0.1:0".parse().unwrap()).ok()?;
+                            ep.set_default_client_config(quinn::ClientConfig::new(Arc::new(tls_client_cfg(Some(b"h11c")))));
+                            let c = tokio::time::timeout(std::time::Duration::from_secs(5), ep.connect(format!("127.0.0.1:{}", a_quic).parse().unwrap(), "localhost").ok()?).await.ok()?.ok()?;
+                            let (mut tx, mut rx) = c.open_bi().await.ok()?;
+                            tx.write_all(&first).await.ok()?;
+                            let mut reply = vec![0u8; reply_len];
+                            tokio::time::timeout(std::time::Duration::from_secs(15), rx.read_exact(&mut reply)).await.ok()?.ok()?;
+                            tx.write_all(&payload[early..]).await.ok()?;
+                            tx.finish().await.ok()?;
+                            let echo = tokio::time::timeout(std::time::Duration::from_secs(15), rx.read_to_end(10_000_000)).await.ok()?.ok()?;
+                            c.close(0u32.into(), b"");
+                            Some((reply, echo, true))
+                        }
+                        _ => {
+                            let port = match listener {
+                                "http" => a_http,
+                                "https" => a_https,
+                                _ => a_sockss,
+                            };
+                            let tcp = TcpStream::connect(("127.0.0.1", port)).await.ok()?;
+                            if listener == "http" {
+                                let mut s = tcp;
+                                s.write_all(&first).await.ok()?;
+                                let mut reply = vec![0u8; reply_len];
+                                tokio::time::timeout(std::time::Duration::from_secs(15), s.read_exact(&mut reply)).await.ok()?.ok()?;
+                                s.write_all(&payload[early..]).await.ok()?;
+                                s.shutdown().await.ok()?;
+                                let (echo, eof, _) = read_all(&mut s).await;
+                                Some((reply, echo, eof))
+                            } else {
+                                let conn = tokio_rustls::TlsConnector::from(Arc::new(tls_client_cfg(None)));
+                                let mut s = tokio::time::timeout(std::time::Duration::from_secs(5), conn.connect(rustls::ServerName::try_from("localhost").unwrap(), tcp)).await.ok()?.ok()?;
+                                s.write_all(&first).await.ok()?;
+                                s.flush().await.ok()?;
+                                let mut reply = vec![0u8; reply_len];
+                                tokio::time::timeout(std::time::Duration::from_secs(15), s.read_exact(&mut reply)).await.ok()?.ok()?;
+                                if listener == "socks+tls" {
+                                    // method reply (2) + ver rep rsv atyp; the bound address follows
+                                    let rest = match reply[5] {
+                                        1 => 6,
+                                        4 => 18,
+                                        3 => {
+                                            let mut l = [0u8; 1];
+                                            s.read_exact(&mut l).await.ok()?;
+                                            l[0] as usize + 2
+                                        }
+                                        _ => return None,
+                                    };
+                                    let mut addr = vec![0u8; rest];
+                                    tokio::time::timeout(std::time::Duration::from_secs(5), s.read_exact(&mut addr)).await.ok()?.ok()?;
+                                }
+                                s.write_all(&payload[early..]).await.ok()?;
+                                s.flush().await.ok()?;
+                                s.shutdown().await.ok()?;
+                                let mut echo = vec![];
+                                let eof = matches!(tokio::time::timeout(std::time::Duration::from_secs(15), s.read_to_end(&mut echo)).await, Ok(Ok(_)) | Ok(Err(_)));
+                                Some((reply, echo, eof))
+                            }
+                        }
+                    }
+                }
+                .await;
+                let (ok, detail) = match &result {
+                    None => (false, "no reply / handshake failed".to_string()),
+                    Some((reply, echo, eof)) => {
+                        let reply_ok = if listener == "socks+tls" { reply[..2] == [5, 0] && reply[2..5] == [5, 0, 0] } else { reply.starts_with(b"HTTP/1.1 200 ") };
+                        (reply_ok && *echo == payload && *eof, format!("success reply={} echoed {} of {} bytes equal={} eof={}", reply_ok, echo.len(), payload.len(), *echo == payload, eof))
+                    }
+                };
+                out.case(&format!("SP {} {} {} {}", listener, upstream, early, n), if ok { "ok" } else { "bad" });
+                out.stat(&format!("secure_{}_{}", listener.replace('+', "_"), upstream.replace('+', "_")));
+                if !ok {
+                    out.oracle_fail("secure-pairing", &format!("{} client -> {} upstream, {} bytes ({} early): {}", listener, upstream, n, early, detail));
+                }
+            }
+        }
+    }
+}
+
+/// like start_listener but for a UDP (QUIC) listener
+pub async fn start_listener_udp(w: &World, yaml_without_bind: &str) -> u16 {
+    use crate::listeners::Listener;
+    for _ in 0..20 {
+        let port = std::net::UdpSocket::bind("127.0.0.1:0").unwrap().local_addr().unwrap().port();
+        let yaml = format!("{}\nbind: 127.0.0.1:{}", yaml_without_bind, port);
+        let mut l = crate::listeners::from_value(&serde_yaml::from_str(&yaml).unwrap()).expect("listener config");
+        if l.init().await.is_err() {
+            continue;
+        }
+        let l: Arc<dyn Listener> = l.into();
+        let (tx, mut rx) = tokio::sync::mpsc::channel(100);
+        if l.listen(w.state.clone(), tx).await.is_err() {
+            continue;
+        }
+        let st = w.state.clone();
+        tokio::spawn(async move {
+            while let Some(ctx) = rx.recv().await {
+                tokio::spawn(crate::process_request(ctx, st.clone()));
+            }
+        });
+        return port;
+    }
+    panic!("no free port");
+}
+
 pub async fn run_c01(out: &mut Out) {
     let mut rng = Rng(out.seed() ^ 0xC01);
     let thorough = out.tier_thorough();
@@ -558,6 +800,7 @@ pub async fn run_c01(out: &mut Out) {
     scripted_cases(out, &mut rng, &w, if thorough { 6000 } else { 800 }, false).await;
     e2e(out, &mut rng, "c01", thorough).await;
     chain_cases(out, &mut rng, thorough).await;
+    secure_pairings(out, &mut rng, thorough).await;
 }
 
 pub async fn run_c04(out: &mut Out) {
